@@ -108,6 +108,70 @@ theorem C04_once_custom (s : Server) (hpool : s.pool = .absent) (d : DispatchFn)
   simp only [entryEffects, entryNF, hv, singleNF, hpool, runDispatcher, hcustom]
   cases notifNF kvs <;> cases d (.str m) p <;> simp
 
+/- ---------- method outcomes that are not instances of `Exception` ---------- -/
+
+/-- "All method outcomes (return, raise, …)": a registered function or instance attribute that raises an exception
+    which is NOT an instance of `Exception` — `sys.exit()` in a "quit" handler (SystemExit), KeyboardInterrupt,
+    GeneratorExit, CancelledError, a user class deriving from BaseException directly: `CallOutcome.raisedBase`.  The
+    exception does not leave `_dispatch`: its last handler is a bare `except:` (fact `dispatchCallCatchAll`), the
+    outcome is the −32603 Fault *object* of a method exception, after exactly one invocation. -/
+theorem C04_base_exception_contained (t : Target) (c : Callable) (method p : PyVal) (hb : binds c.sig p = true)
+    (cls text : String) (depth : Nat) (hbody : c.body p = .raisedBase cls text depth) :
+    invoke t (some c) method p = (.fault codeInternal (msgServerError cls text), [.call t method p]) := by
+  simp [invoke, hb, hbody, handleCallExc, methodExceptionFault]
+
+/-- … hence a notification of such a method, inline, alone: it runs exactly once and the body of the reply is empty;
+    at a batch position it contributes its one call and no response (`C04_batch_effects`, `C04_never_answered_in_batch`). -/
+theorem C04_base_exception_notification (s : Server) (hpool : s.pool = .absent) (hcustom : s.custom = Option.none)
+    (e : PyVal) (kvs : List (PyVal × PyVal)) (m : String) (p : PyVal) (hv : validateNF e = .valid kvs m p)
+    (hn : wfNotification e = true)
+    (c : Callable) (hf : s.reg.funcs.lookup m = some c) (hb : binds c.sig p = true)
+    (cls text : String) (depth : Nat) (hbody : c.body p = .raisedBase cls text depth) :
+    (runDispatcher s (.str m) p) = (.ok (.fault codeInternal (msgServerError cls text)), [.call .func (.str m) p]) ∧
+    entryEffects s e = [.call .func (.str m) p] ∧
+    respond s e = Option.none ∧
+    (marshaledDispatch s (.parsed e)).1 = .ok .empty := by
+  have hp : s.pool ≠ .full := by simp [hpool]
+  refine ⟨?_, C04_once_inline s hpool hcustom e kvs m p hv c hf hb, C04_never_answered s hp e hn,
+    C04_never_answered_alone s hp e hn⟩
+  simp only [runDispatcher, hcustom, dispatch, hf, C04_base_exception_contained .func c (.str m) p hb cls text depth hbody]
+
+/-- The same outcome of a *dispatch function* — the custom function handed to `_marshaled_dispatch`, or (through
+    `_dispatch`, whose `except AttributeError` does not take it) the registered instance's own `_dispatch(method, params)`:
+    the exception leaves `runDispatcher`, and the handler around the synchronous call, `except BaseException` (fix
+    43f3faa, fact `syncCallCatchAll`), takes it: a notification is executed exactly once and gets no response — alone, the
+    body of the reply is empty. -/
+theorem C04_base_exception_dispatch_fn (s : Server) (hpool : s.pool = .absent) (d : DispatchFn) (hcustom : s.custom = some d)
+    (e : PyVal) (kvs : List (PyVal × PyVal)) (m : String) (p : PyVal) (hv : validateNF e = .valid kvs m p)
+    (hn : wfNotification e = true)
+    (cls text : String) (depth : Nat) (hbody : d (.str m) p = .raisedBase cls text depth) :
+    (runDispatcher s (.str m) p) = (.error { cls := cls, arg := .str text }, [.call .custom (.str m) p]) ∧
+    entryEffects s e = [.call .custom (.str m) p] ∧
+    respond s e = Option.none ∧
+    (marshaledDispatch s (.parsed e)).1 = .ok .empty := by
+  have hp : s.pool ≠ .full := by simp [hpool]
+  refine ⟨?_, C04_once_custom s hpool d hcustom e kvs m p hv, C04_never_answered s hp e hn,
+    C04_never_answered_alone s hp e hn⟩
+  simp [runDispatcher, hcustom, hbody]
+
+/-- … and of the registered instance's own `_dispatch`. -/
+theorem C04_base_exception_instance_dispatch (s : Server) (hpool : s.pool = .absent) (hcustom : s.custom = Option.none)
+    (e : PyVal) (kvs : List (PyVal × PyVal)) (m : String) (p : PyVal) (hv : validateNF e = .valid kvs m p)
+    (hn : wfNotification e = true)
+    (hf : s.reg.funcs.lookup m = Option.none) (inst : Instance) (hi : s.reg.inst = some inst)
+    (d : DispatchFn) (hd : inst.dispatch = some d)
+    (cls text : String) (depth : Nat) (hbody : d (.str m) p = .raisedBase cls text depth) :
+    (runDispatcher s (.str m) p) = (.error { cls := cls, arg := .str text }, [.call .instDispatch (.str m) p]) ∧
+    entryEffects s e = [.call .instDispatch (.str m) p] ∧
+    respond s e = Option.none ∧
+    (marshaledDispatch s (.parsed e)).1 = .ok .empty := by
+  have hp : s.pool ≠ .full := by simp [hpool]
+  have hrun : (runDispatcher s (.str m) p) = (.error { cls := cls, arg := .str text }, [.call .instDispatch (.str m) p]) := by
+    simp [runDispatcher, hcustom, dispatch, hf, hi, hd, hbody]
+  refine ⟨hrun, ?_, C04_never_answered s hp e hn, C04_never_answered_alone s hp e hn⟩
+  simp only [entryEffects, entryNF, hv, singleNF, hpool, hrun]
+  cases notifNF kvs <;> simp
+
 /- ---------- pooled: exactly one enqueue, no call ---------- -/
 
 /-- With a notification pool, a well-formed notification causes exactly one `enqueue` — of the custom
@@ -312,6 +376,46 @@ example : marshaledDispatch { cfg := {}, reg := exReg }
 example : marshaledDispatch { cfg := {}, reg := exReg, pool := .accepting }
     (.parsed (.list [notif "boom" [], mkDict [("id", .str ""), ("method", .str "add")]]))
     = (.ok .empty, [.enqueue false (.str "boom") (.list []) 20, .enqueue false (.str "add") (.list []) 10]) := by
+  decide +kernel
+
+/- A "quit" handler calling `sys.exit(3)`: as notifications (alone: empty reply, one call; in a batch next to a call: only
+   the call is answered) and as a call with an id (−32603 carrying the id). -/
+private def exQuitReg : Registry :=
+  { funcs := [("add", { sig := { names := ["a", "b"] }, body := fun _ => .ret (.int 3) }),
+              ("quit", { sig := { names := [], star := true }, body := fun _ => .raisedBase "SystemExit" "3" 1 })] }
+
+example : marshaledDispatch { cfg := {}, reg := exQuitReg } (.parsed (notif "quit" [.int 3]))
+    = (.ok .empty, [.call .func (.str "quit") (.list [.int 3])]) := by
+  decide +kernel
+
+example : marshaledDispatch { cfg := {}, reg := exQuitReg }
+    (.parsed (.list [notif "quit" [], mkDict [("jsonrpc", .str "2.0"), ("method", .str "add"), ("params", .list [.int 1, .int 2]), ("id", .int 1)],
+                     mkDict [("id", .none), ("method", .str "quit")]]))
+    = (.ok (.doc (.list [.dict [(.str "result", .int 3), (.str "id", .int 1), (.str "jsonrpc", .str "2.0")]])),
+       [.call .func (.str "quit") (.list []), .call .func (.str "add") (.list [.int 1, .int 2]), .call .func (.str "quit") (.list [])]) := by
+  decide +kernel
+
+example : (marshaledDispatch { cfg := {}, reg := exQuitReg }
+    (.parsed (mkDict [("jsonrpc", .str "2.0"), ("method", .str "quit"), ("id", .int 7)]))).1
+    = .ok (.doc (.dict [(.str "id", .int 7), (.str "jsonrpc", .str "2.0"),
+        (.str "error", .dict [(.str "code", .int (-32603)), (.str "message", .str "Server error: SystemExit: 3")])])) := by
+  decide +kernel
+
+example : wfNotification (notif "quit" [.int 3]) = true ∧ binds { names := [], star := true } (.list [.int 3]) = true := by
+  decide +kernel
+
+/- … the same from a custom dispatch function and from an instance's own `_dispatch` (fix 43f3faa): nothing for the
+   notifications, −32603 `SystemExit:3` with its id for the call. -/
+example : marshaledDispatch { cfg := {}, custom := some (fun _ _ => .raisedBase "SystemExit" "3" 1) }
+    (.parsed (.list [notif "quit" [], mkDict [("jsonrpc", .str "2.0"), ("method", .str "quit"), ("id", .int 7)], notif "quit" [.int 1]]))
+    = (.ok (.doc (.list [.dict [(.str "id", .int 7), (.str "jsonrpc", .str "2.0"),
+        (.str "error", .dict [(.str "code", .int (-32603)), (.str "message", .str "SystemExit:3")])]])),
+       [.call .custom (.str "quit") (.list []), .call .custom (.str "quit") (.list []), .call .custom (.str "quit") (.list [.int 1])]) := by
+  decide +kernel
+
+example : marshaledDispatch { cfg := {}, reg := { inst := some { dispatch := some (fun _ _ => .raisedBase "KeyboardInterrupt" "" 1) } } }
+    (.parsed (notif "anything" []))
+    = (.ok .empty, [.call .instDispatch (.str "anything") (.list [])]) := by
   decide +kernel
 
 example : marshaledDispatch { cfg := {}, custom := some (fun _ _ => .raised "KeyError" "'x'" false false 1) }
